@@ -243,7 +243,7 @@ class Ctx:
         self.known_printed = set()
         self.keep = bool(os.environ.get("VERIF_KEEP"))
         self._distinct = set()
-        self._overlay = None
+        self._overlays = {}
         self._bins = {}
         self._nval = 0
         self.known = []
@@ -419,15 +419,19 @@ class Ctx:
         return out
 
     # ---------------------------------------------------------------- Go
-    def overlay(self):
-        if self._overlay:
-            return self._overlay
+    def overlay(self, only=None):
+        """Write the build overlay.  `only` (regex) restricts the in-package driver files that are
+        overlaid to those whose base name matches, so that drivers of different properties living in
+        the same real package do not depend on each other."""
+        key = only or ""
+        if key in self._overlays:
+            return self._overlays[key]
         rep = {}
         inpkg = os.path.join(VERIF, "harness", "inpkg")
         for root, _, files in os.walk(inpkg):
             rel = os.path.relpath(root, inpkg)
             for fn in files:
-                if fn.endswith(".go"):
+                if fn.endswith(".go") and (only is None or re.search(only, fn)):
                     rep[os.path.join(REPO, rel, fn)] = os.path.join(root, fn)
         for sub, dst in (("virt", "internal/zzverif"), ("vlib", "internal/zzverif/vlib")):
             base = os.path.join(VERIF, "harness", sub)
@@ -436,18 +440,19 @@ class Ctx:
                 for fn in files:
                     if fn.endswith(".go"):
                         rep[os.path.normpath(os.path.join(REPO, dst, rel, fn))] = os.path.join(root, fn)
-        self._overlay = os.path.join(self.run, "overlay.json")
-        json.dump({"Replace": rep}, open(self._overlay, "w"), indent=0)
-        return self._overlay
+        path = os.path.join(self.run, "overlay-%d.json" % len(self._overlays))
+        json.dump({"Replace": rep}, open(path, "w"), indent=0)
+        self._overlays[key] = path
+        return path
 
-    def go_build(self, pkg, name=None, tags="verif", race=False, timeout=900):
+    def go_build(self, pkg, name=None, tags="verif", race=False, timeout=900, only=None):
         """Compile the test binary of package `pkg` (path relative to the module root, e.g.
         'internal/idle' or 'internal/zzverif/c28') from REPO's working tree with the overlay."""
         name = name or pkg.strip("./").replace("/", "_")
         if name in self._bins:
             return self._bins[name]
         out = os.path.join(self.run, name + ".test")
-        cmd = [VGO, "test", "-c", "-vet=off", "-tags", tags, "-overlay", self.overlay(), "-o", out]
+        cmd = [VGO, "test", "-c", "-vet=off", "-tags", tags, "-overlay", self.overlay(only), "-o", out]
         if race:
             cmd.append("-race")
         cmd.append("./" + pkg.strip("./"))
